@@ -177,7 +177,7 @@ impl Runner {
                 if !cl.send(&wire) { return (op[..pos].to_vec(), vec![b("CLOSED")]); }
                 let mut newop = op[..pos].to_vec();
                 newop[2] = Tok::I(self.logical);
-                match cl.read(3000) {
+                match cl.read(8000) {
                     Rd::Val(v) => {
                         if RANDOM_CMDS.contains(&&nm[..]) || nm == b"ZSCAN" { v.enc(&mut newop); }
                         // replies inside an EXEC array are canonicalised by the queued command's name
@@ -211,7 +211,7 @@ impl Runner {
                 let passes0 = ask(cl, &[b"VERIF", b"SWEEP", b"PASSES"]);
                 let wait = |cl: &mut Client, ask: &mut dyn FnMut(&mut Client, &[&[u8]]) -> i64, what: &[u8], target: i64| -> bool {
                     let t0 = Instant::now();
-                    while t0.elapsed() < Duration::from_millis(2500) {
+                    while t0.elapsed() < Duration::from_millis(8000) {
                         if ask(cl, &[b"VERIF", b"SWEEP", what]) >= target { return true; }
                         std::thread::sleep(Duration::from_millis(5));
                     }
@@ -268,8 +268,14 @@ impl Runner {
     pub fn finish(mut self) -> bool { let alive = self.srv.alive(); self.conns.clear(); self.srv.stop(false); alive }
 }
 
-/// run a whole case on a fresh server
+/// run a whole case on a fresh server; a case that hit a harness-side timeout (reply or sweeper wait
+/// not seen in time: machine overload, not a property of the server) is re-run once
 pub fn run_case(c: &Case, o: &SrvOpts) -> Case {
+    let r = run_case_once(c, o);
+    let infra = r.outs.iter().any(|out| out.len() == 1 && matches!(&out[0], Tok::B(w) if w == b"TIMEOUT" || w == b"SWEEPTIMEOUT" || w == b"BADREPLY"));
+    if infra { run_case_once(c, o) } else { r }
+}
+pub fn run_case_once(c: &Case, o: &SrvOpts) -> Case {
     // an initial [SERVER password] op configures the server of this case
     let mut opts = SrvOpts { password: o.password.clone(), aof: o.aof, dir: o.dir.clone(), keep_dir: o.keep_dir };
     let mut skip = 0;
